@@ -28,8 +28,8 @@ const (
 	tfHonest = iota
 	tfDrop
 	tfDuplicate
-	tfFlipByte      // corrupt filter data
-	tfTruncate      // malformed (truncated) data
+	tfFlipByte       // corrupt filter data
+	tfTruncate       // malformed (truncated) data
 	tfOtherBlockData // data of another block's filter under this block's hash
 	tfOtherBlockHash // this filter under another (in-range or out-of-range) block's hash
 	tfWrongType      // another filter type
@@ -223,14 +223,14 @@ func runAPI(t *testing.T, rc *core.RunCtx) {
 	type call struct {
 		hadBefore      bool // the filter was in the cache or database when the call started
 		defaultRetries bool
-		idx   int
-		blk   *chainmodel.Block
-		what  string
-		done  chan struct{}
-		filt  *gcs.Filter
-		block *btcutil.Block
-		err   error
-		t0    time.Time
+		idx            int
+		blk            *chainmodel.Block
+		what           string
+		done           chan struct{}
+		filt           *gcs.Filter
+		block          *btcutil.Block
+		err            error
+		t0             time.Time
 	}
 	var calls []*call
 	nCalls := 1 + tp.Intn(6)
